@@ -1,7 +1,8 @@
 // C12: switch_ output follows only the selected branch, which starts fresh.
 //   real wire_switch -> compile_switch_branch -> switch_node (switch_node.cpp, nested_bindings.h) with the
 //   branches (hand-made WiredFn over static nodes)
-//        key 0: x + 1 (stateless)        key 1: running sum of x (State)
+//        key 0: sub-graph {heartbeat node scheduled on start; separate consumer x + 1 of the held input}
+//        key 1: running sum of x (State)
 //        key 2: self-scheduling: x on a tick of x, x + 100*n on its n-th own wake-up one cycle later
 //        default (if DEFAULTS): key-consuming, stateful  key*1000 + x + 1000000*(evaluations of this instance so far);
 //        two unmatched keys (3 and 4) both fall to it: a change between them must still give a fresh instance
@@ -64,6 +65,7 @@ bool g_x_tick = false;
 Int g_xv = 0;
 // ---- observations of the current cycle ----
 int g_evals[NB];       // evaluations of branch code b in this cycle
+int g_hb_evals = 0;    // evaluations of branch 0's heartbeat node in this cycle
 bool g_fresh_seen[NB]; // the evaluation saw default (fresh) State
 Int g_obs_cycle = -1;
 int g_obs_runs = 0;
@@ -82,6 +84,8 @@ struct Model {
 } M;
 bool ok_valid = true, ok_value = true, ok_ticks = true, ok_evals = true, ok_fresh = true, ok_notified = true;
 int n_switches = 0;
+int g_exp_hb = 0;
+bool r_due_and_held = false;
 bool r_back = false, r_same_cycle = false, r_dead_timer = false, r_reload_same = false, r_default = false, r_wake = false,
      r_silent_select = false, r_same_key_no_reload = false, r_default_to_default = false;
 bool visited[NB];
@@ -89,6 +93,17 @@ bool visited[NB];
 inline Int cyc(DateTime now) { return (now - MIN_ST).count(); }
 
 // ---- branches ----
+// Branch 0 is a two-node sub-graph: a heartbeat node that is scheduled on start (so the freshly started branch graph is
+// already due in the activation cycle for a reason of its own) and, separately, the consumer of the held input x below.
+struct Heartbeat {
+    static constexpr auto name = "b_heartbeat";
+    static constexpr bool schedule_on_start = true;
+    static void eval(State<Int> n, Out<TS<Int>> out) {
+        g_hb_evals++;
+        n.set(n.get() + 1);
+        out.set(n.get());
+    }
+};
 struct BInc {
     static constexpr auto name = "b_inc";
     static void eval(In<"x", TS<Int>> x, State<Int> n, Out<TS<Int>> out) {
@@ -129,6 +144,13 @@ template <class Key> struct BKeyed {
         n.set(n.get() + 1);
         // the value shows the instance's age: a default instance that survives a change between two unmatched keys is caught
         out.set((Int)((U)KeyOps<Key>::code(key.value()) * 1000 + (U)x.value() + 1000000 * (U)(n.get() - 1)));
+    }
+};
+
+struct BHeartInc {   // the sub-graph of branch 0
+    static WiringPortRef wire(Wiring &w, std::span<const WiringPortRef> a) {
+        (void)hgraph::wire<Heartbeat>(w);
+        return hgraph::wire<BInc>(w, Port<void>{w, a[0]}).erased();
     }
 };
 
@@ -188,6 +210,7 @@ int branch_for(int key) {
 bool model_step(Int c, int exp_evals[NB], bool &exp_fresh) {
     for (int b = 0; b < NB; b++) exp_evals[b] = 0;
     exp_fresh = false;
+    g_exp_hb = 0;
     if (g_x_tick) { M.x = g_xv; M.x_valid = true; }
     bool selected_now = false;
     if (g_key_tick >= 0) {
@@ -207,6 +230,10 @@ bool model_step(Int c, int exp_evals[NB], bool &exp_fresh) {
             M.sum = 0; M.wakes = 0; M.pending = -1; M.cnt = 0; M.out_valid = false;
             visited[b] = true;
             selected_now = true;
+            if (b == 0) {
+                g_exp_hb = 1;   // the heartbeat runs once, in the activation cycle
+                if (M.x_valid && !g_x_tick) r_due_and_held = true;
+            }
             if (b == 3) r_default = true;
         } else {
             r_same_key_no_reload = true;
@@ -257,6 +284,8 @@ struct Checker {
             if (b != 1 && exp_evals[b] == 1 && g_evals[b] == 1) ok_fresh &= (g_fresh_seen[b] == exp_fresh);
         }
         if (wrote) ok_notified &= (g_obs_cycle == c);
+        ok_evals &= (g_hb_evals == g_exp_hb);
+        g_hb_evals = 0;
         for (int b = 0; b < NB; b++) { g_evals[b] = 0; g_fresh_seen[b] = false; }
         g_key_tick = -1;
         g_x_tick = false;
@@ -266,7 +295,7 @@ struct Checker {
 template <class Key> WiringPortRef wire_the_switch(Wiring &w, const Port<TS<Int>> &v) {
     auto k = wire<KeySrc<Key>>(w);
     stdlib::SwitchCases cases;
-    cases.cases.push_back(stdlib::SwitchCase{Value{KeyOps<Key>::mk(0)}, FnN<BInc, 1>::make()});
+    cases.cases.push_back(stdlib::SwitchCase{Value{KeyOps<Key>::mk(0)}, FnW<BHeartInc, 1>::make()});
     cases.cases.push_back(stdlib::SwitchCase{Value{KeyOps<Key>::mk(1)}, FnN<BSum, 1>::make()});
     cases.cases.push_back(stdlib::SwitchCase{Value{KeyOps<Key>::mk(2)}, FnN<BSched, 1>::make()});
     if (g_default) cases.default_branch = FnN<BKeyed<Key>, 2>::make();
@@ -324,6 +353,7 @@ extern "C" int harness_main() {
     if (r_same_key_no_reload) verif_reach("same_key_tick_without_reload");
     if (r_default) verif_reach("default_branch_selected");
     if (r_default_to_default) verif_reach("default_to_default_key_change");
+    if (r_due_and_held) verif_reach("branch_due_at_activation_and_held_input_consumer");
     if (r_wake) verif_reach("branch_timer_fired");
     if (r_silent_select) verif_reach("selected_before_input_valid");
     verif_log("obs_runs", g_obs_runs);
